@@ -90,6 +90,36 @@ def generate(seed, tier):
     return cases
 
 
+def read_before_write(body):
+    """variables of a statement list that are read (anywhere: condition, right-hand side, parameter, default) by a statement that
+    comes before the first top-level statement assigning them"""
+    def reads(x, acc):
+        if isinstance(x, tuple):
+            if len(x) == 2 and x[0] == "var" and isinstance(x[1], str):
+                acc.add(x[1])
+            else:
+                for y in x:
+                    reads(y, acc)
+        elif isinstance(x, list):
+            for y in x:
+                reads(y, acc)
+        return acc
+    written, out = set(), set()
+    for st in body:
+        if st[0] == "assign":
+            rs = reads(st[2:], set())
+            # an IR assignment 'x = rhs | cond : x' reads x itself through its default only when the condition fails: that is the
+            # "keeps its value" case, which the boundary states already cover - not counted as a read of the old value
+            out |= (rs - {st[1]}) - written
+            written.add(st[1])
+        elif st[0] == "simult":
+            out |= reads(st[2], set()) - written
+            written |= set(st[1])
+        else:
+            out |= reads(st[1:], set()) - written
+    return out
+
+
 def worker_init(tier):
     P.load()
 
@@ -168,6 +198,12 @@ def run_case(case, tier):
                 for v in inferred:
                     if v in eng.index:
                         observed[v].add(stt[eng.index[v]])
+        # ... except when the body READS the variable (in a condition or a right-hand side) before its first assignment of the iteration:
+        # then the value held at boundary 0 decides a branch / enters a computation in the first iteration and is observable
+        for v in read_before_write(st.ast.body):
+            if v in inferred and v in eng.index:
+                for stt in dists[0]:
+                    observed[v].add(stt[eng.index[v]])
         seen_sets = [frozenset(d) for d in dists]
         if len(seen_sets) >= 2 and seen_sets[-1] == seen_sets[-2]:
             res["extra"]["exhaustive_cases"] = 1
